@@ -472,7 +472,7 @@ func c01Deep(r *drv.Run) {
 			mk(t, k)
 		}
 	}
-	r.Exec(len(items), drv.ExecOpts{Batch: 4}, func(i int) *drv.Item {
+	r.Exec(len(items), drv.ExecOpts{Batch: 4, Env: []string{"VW_RSS_LIMIT_MB=8000", "VW_CPU_LIMIT_S=240"}}, func(i int) *drv.Item {
 		it := items[i]
 		cs := it.cs
 		c := wire.Case{Op: "run", Src: []byte(cs.src), Texts: cs.texts, StepBudget: 20_000_000}
